@@ -7,6 +7,10 @@
 //!   (default name when the list is shorter); hex = UTF-8 bytes, "-" = empty; the pair U+E123 U+E124
 //!   in a name becomes a lone high surrogate + 'A' in the dump's UTF-16 (lossy decoding);
 //!   SYM = breakpad symbol file text for module modidx.
+//!   optional tail: INS <hex|-> REGS <0|16> {u64}* MINFO <k> {base size prot}*k CPUINFO <hex|-> LSB <hex|->
+//!   INS = instruction bytes planted in a memory region at the exception's ip; REGS = amd64 registers of the
+//!   exception context (rax rcx rdx rbx rsp rbp rsi rdi r8..r15); MINFO = memory-info entries; CPUINFO / LSB =
+//!   text of the Linux cpuinfo / lsb-release streams.
 #[path = "c14.rs"]
 #[allow(dead_code)]
 mod c14;
@@ -56,8 +60,121 @@ fn facts(state: &minidump_processor::ProcessState) -> String {
     f.push(format!("PID {}", onum(state.process_id)));
     f.push(format!("REQ {}", onum(state.requesting_thread)));
     match &state.exception_info {
-        Some(ei) => f.push(format!("CRASH {} {}", hexstr(&ei.reason.to_string()), ei.address.0)),
+        Some(ei) => {
+            f.push(format!("CRASH {} {}", hexstr(&ei.reason.to_string()), ei.address.0));
+            f.push(match &ei.adjusted_address {
+                None => "ADJ -".to_string(),
+                Some(minidump_processor::AdjustedAddress::NonCanonical(a)) => format!("ADJ nc {}", a.0),
+                Some(minidump_processor::AdjustedAddress::NullPointerWithOffset(o)) => format!("ADJ null {}", o.0),
+            });
+            f.push(format!("INSTR {}", ostr(ei.instruction_str.as_deref())));
+            let ty = |d: String| match d.as_str() {
+                "Read" => 0,
+                "Write" => 1,
+                "ReadWrite" => 2,
+                _ => 3,
+            };
+            match &ei.memory_access_list {
+                None => f.push("ACC -".into()),
+                Some(l) => {
+                    f.push(format!("ACC {}", l.accesses.len()));
+                    for a in &l.accesses {
+                        f.push(format!(
+                            "{} {} {} {}",
+                            a.address_info.address,
+                            onum(a.size),
+                            a.address_info.is_likely_guard_page as u8,
+                            ty(format!("{:?}", a.access_type))
+                        ));
+                    }
+                }
+            }
+            f.push(match &ei.instruction_pointer_update {
+                None => "IPU -".to_string(),
+                Some(u) => {
+                    let d = format!("{:?}", u);
+                    if d.starts_with("NoUpdate") {
+                        "IPU none".to_string()
+                    } else {
+                        // Update { address_info: MemoryAddressInfo { address: N, .., is_likely_guard_page: B } }
+                        let after = |key: &str| d.split(key).nth(1).unwrap().to_string();
+                        let addr: String = after(" address: ").chars().take_while(|c| c.is_ascii_digit()).collect();
+                        let guard = after("is_likely_guard_page: ").starts_with("true");
+                        format!("IPU upd {} {}", addr, guard as u8)
+                    }
+                }
+            });
+            f.push(format!("FLIPS {}", ei.possible_bit_flips.len()));
+            for b in &ei.possible_bit_flips {
+                f.push(format!(
+                    "{} {} {} {} {} {} {}",
+                    b.address.0,
+                    ostr(b.source_register),
+                    b.details.was_non_canonical as u8,
+                    b.details.is_null as u8,
+                    b.details.was_low as u8,
+                    b.details.nearby_registers,
+                    b.details.poison_registers as u8
+                ));
+            }
+            f.push(format!("INC {}", ei.inconsistencies.len()));
+            for i in &ei.inconsistencies {
+                f.push(
+                    match format!("{:?}", i).as_str() {
+                        "IntDivByZeroNotPossible" => 0,
+                        "PrivInstructionCrashWithoutPrivInstruction" => 1,
+                        "NonCanonicalAddressFalselyReported" => 2,
+                        "AccessViolationWhenAccessAllowed" => 3,
+                        _ => 4,
+                    }
+                    .to_string(),
+                );
+            }
+        }
         None => f.push("CRASH -".into()),
+    }
+    {
+        use minidump::system_info::{Cpu, Os};
+        let sys = &state.system_info;
+        let (osi, osraw) = match sys.os {
+            Os::Windows => (0, 0),
+            Os::MacOs => (1, 0),
+            Os::Ios => (2, 0),
+            Os::Linux => (3, 0),
+            Os::Solaris => (4, 0),
+            Os::Android => (5, 0),
+            Os::Ps3 => (6, 0),
+            Os::NaCl => (7, 0),
+            Os::Unknown(v) => (8, v),
+        };
+        let cpui = match sys.cpu {
+            Cpu::X86 => 0,
+            Cpu::X86_64 => 1,
+            Cpu::Ppc => 2,
+            Cpu::Ppc64 => 3,
+            Cpu::Sparc => 4,
+            Cpu::Arm => 5,
+            Cpu::Arm64 => 6,
+            Cpu::Mips => 7,
+            Cpu::Mips64 => 8,
+            _ => 9,
+        };
+        f.push(format!(
+            "SYS {} {} {} {} {} {} {}",
+            osi,
+            osraw,
+            ostr(sys.format_os_version().as_deref()),
+            cpui,
+            ostr(sys.cpu_info.as_deref()),
+            sys.cpu_count,
+            onum(sys.cpu_microcode_version)
+        ));
+        match &state.linux_standard_base {
+            Some(l) => f.push(format!("LSB {} {} {} {}", hexstr(&l.id), hexstr(&l.release), hexstr(&l.codename), hexstr(&l.description))),
+            None => f.push("LSB -".into()),
+        }
+        f.push(format!("MAPC {}", onum(state.linux_memory_map_count)));
+        f.push(format!("CERT {}", (!state.cert_info.is_empty()) as u8));
     }
     f.push(format!("TH {}", state.threads.len()));
     for t in &state.threads {
@@ -72,7 +189,18 @@ fn facts(state: &minidump_processor::ProcessState) -> String {
             f.push(onum(fr.function_base));
             f.push(ostr(fr.source_file_name.as_deref()));
             f.push(onum(fr.source_line));
-            f.push(hexstr(fr.trust.as_str()));
+            f.push(
+                match fr.trust {
+                    minidump_unwind::FrameTrust::None => 0,
+                    minidump_unwind::FrameTrust::Scan => 1,
+                    minidump_unwind::FrameTrust::CfiScan => 2,
+                    minidump_unwind::FrameTrust::FramePointer => 3,
+                    minidump_unwind::FrameTrust::CallFrameInfo => 4,
+                    minidump_unwind::FrameTrust::PreWalked => 5,
+                    minidump_unwind::FrameTrust::Context => 6,
+                }
+                .to_string(),
+            );
             f.push(format!("UNL {}", fr.unloaded_modules.len()));
             for (name, offs) in &fr.unloaded_modules {
                 f.push(format!("{} K {} {}", hexstr(name), offs.len(), offs.iter().map(|o| o.to_string()).collect::<Vec<_>>().join(" ")));
@@ -154,7 +282,19 @@ fn view_module(m: &Value) -> Value {
 /// The fields the model covers, rebuilt from the parsed real output.
 fn view(v: &Value) -> Value {
     let mut o = Map::new();
-    o.insert("crash_info".into(), pick(v.get("crash_info").unwrap_or(&Value::Null), &["address", "crashing_thread", "type"]));
+    let mut ci = v.get("crash_info").cloned().unwrap_or(Value::Null);
+    // the binary32 confidence is not modelled (serde_json's float writer)
+    if let Some(fl) = ci.get_mut("possible_bit_flips").and_then(|x| x.as_array_mut()) {
+        for b in fl {
+            if let Some(m) = b.as_object_mut() {
+                m.remove("confidence");
+            }
+        }
+    }
+    o.insert("crash_info".into(), ci);
+    for k in ["linux_memory_map_count", "lsb_release", "main_module", "modules_contains_cert_info", "status", "system_info"] {
+        o.insert(k.into(), v.get(k).cloned().unwrap_or(json!("<absent>")));
+    }
     if let Some(ct) = v.get("crashing_thread") {
         o.insert("crashing_thread".into(), view_thread(ct, true));
     }
@@ -186,6 +326,30 @@ fn run(line: &str) -> String {
     c14::expect_tok(&mut x, "SYM");
     let q = x.usize();
     let syms: Vec<(usize, String)> = (0..q).map(|_| (x.usize(), utf8_arg(x.str()))).collect();
+    if let Some(tok) = x.opt() {
+        assert!(tok == "INS");
+        let ins = unhex(x.str());
+        c14::expect_tok(&mut x, "REGS");
+        let nr = x.usize();
+        let regs: Vec<u64> = (0..nr).map(|_| x.u64()).collect();
+        c14::expect_tok(&mut x, "MINFO");
+        let nm = x.usize();
+        for _ in 0..nm {
+            c.mem_infos.push((x.u64(), x.u64(), x.u64() as u32));
+        }
+        c14::expect_tok(&mut x, "CPUINFO");
+        let cpuinfo = unhex(x.str());
+        c14::expect_tok(&mut x, "LSB");
+        let lsb = unhex(x.str());
+        if nr == 16 {
+            c.exc_regs = Some(regs);
+        }
+        if let (Some(e), false) = (&c.exc, ins.is_empty()) {
+            c.raw_mems.push((e.ip, ins));
+        }
+        c.cpuinfo = cpuinfo;
+        c.lsb = lsb;
+    }
     if !tn.is_empty() {
         for (j, n) in c.names.iter_mut().enumerate() {
             n.2 = tn[j % tn.len()].clone();
